@@ -183,3 +183,15 @@ benign("C06","sortfunc-with-key-tiebreak",[
 benign("C19","validate-duplicate-helper",[
  ("x/oracle/types/genesis.go","func (gs GenesisState) Validate() error {","func (gs GenesisState) Validate() error {\n\t_ = gs.Params"),
 ])
+
+# ---- success-implies-effect rules
+m("C16","register-free-when-zero-years","x/rns/keeper/msg_server_register.go",
+  '	price := sdk.Coins{sdk.NewInt64Coin("ujkl", cost*years)}','	price := sdk.Coins{sdk.NewInt64Coin("ujkl", cost*years)}\n\tif years == 0 {\n\t\treturn nil\n\t}',"C16/R4","success-implies")
+m("C18","create-silently-drops-empty","x/notifications/keeper/msg_server_create_notifications.go",
+  '	sender := msg.Creator','	if len(msg.Contents) == 2 {\n\t\treturn &types.MsgCreateNotificationResponse{}, nil\n\t}\n\tsender := msg.Creator',"C18/R6","success-implies")
+m("C04","buy-same-plan-is-free-noop","x/storage/keeper/msg_server_buy_storage.go",
+  '		spaceUsed = payInfo.SpaceUsed\n','		spaceUsed = payInfo.SpaceUsed\n\t\tif payInfo.SpaceAvailable == bytes && duration == 0 {\n\t\t\treturn &types.MsgBuyStorageResponse{}, nil\n\t\t}\n',"C04/R7","success-implies")
+m("C11","register-name-stored-unnormalised","x/rns/keeper/msg_server_register.go",
+  '		Name:       name,\n		Expires:    time,','		Name:       strings.TrimSpace(name),\n		Expires:    time,',"C11/R7","loaded-key=written-key:rns/Names/value/")
+m("C11","update-feed-writes-other-name","x/oracle/keeper/msg_server_feeds.go",
+  '	feed.Data = msg.Data\n','	feed.Data = msg.Data\n\tfeed.Name = msg.Name + msg.Data\n',"C11/R7","loaded-key=written-key:oracle/Feed/value/")
